@@ -695,3 +695,8 @@ end C03
 #print axioms C03.hybrid_rewriting_from_formulas
 
 
+
+#print axioms C03.hsame_fails_for_the_cli_pairing
+#print axioms C03.hybrid_stmrew2_exact
+#print axioms C03.stable_none_then_empty
+#print axioms C03.hybrid_stable_none_then_empty
